@@ -456,3 +456,95 @@ Definition run_pyramid pos rowcos colcos R C spr spc fs : val :=
                                       VL [VZ Rl; VZ Cl; VQ a; VQ b;
                                           vaff (tiled_geometry pos rowcos colcos a b None)] end) ls))
        (pyramid R C spr spc fs).
+
+(* ====================================================================== *)
+(* 9. tiled segmentation placed by the caller (seg/sop.py constructor,      *)
+(*    tile_pixel_array=True with plane_positions=[top left corner] or a      *)
+(*    Volume in the SLIDE coordinate system)                                *)
+(* ====================================================================== *)
+Open Scope Q_scope.
+Definition v3_eqb (a b : v3) : bool :=
+  Qeq_bool (vx a) (vx b) && Qeq_bool (vy a) (vy b) && Qeq_bool (vz a) (vz b).
+
+(* The TotalPixelMatrixOriginSequence that the constructor records.
+   npos = number of plane positions passed, (rp, cp) = Row/ColumnPositionInTotalImagePixelMatrix
+   of the first one; o_given / m_given = orientation / pixel measures were supplied by the
+   caller (always for a Volume); (MR, MC) = shape of the mask, (th, tw) = tile size used.
+   'spatial locations preserved' -> the origin item is deep-copied from the SOURCE image,
+   otherwise it is written from the caller's position. *)
+Definition placed_origin (src_org usr_org : v3) (npos rp cp : Z)
+           (o_given : bool) (src_rc src_cc u_rc u_cc : v3)
+           (m_given : bool) (src_spr src_spc u_spr u_spc : Q)
+           (srcR srcC MR MC src_th src_tw th tw : Z) : res v3 :=
+  if negb (npos =? 1)%Z then Err "ValueError"
+  else if negb ((rp =? 1)%Z && (cp =? 1)%Z) then Err "ValueError"
+  else
+    let origin_preserved := v3_eqb usr_org src_org in
+    let tpm_preserved :=
+      origin_preserved
+      && (negb o_given || (v3_eqb u_rc src_rc && v3_eqb u_cc src_cc))
+      && (negb m_given || (Qeq_bool u_spr src_spr && Qeq_bool u_spc src_spc)) in
+    if tpm_preserved then
+      if negb ((MR =? srcR)%Z && (MC =? srcC)%Z) then Err "ValueError"
+      else Ok (if (th =? src_th)%Z && (tw =? src_tw)%Z then src_org else usr_org)
+    else Ok usr_org.
+
+(* spatial.compute_tile_positions_per_frame: the tile whose top left pixel has
+   zero-based matrix indices (r0, c0) *)
+Definition tile_pos (org rowcos colcos : v3) (spr spc : Q) (r0 c0 : Z) : v3 :=
+  vadd org (vadd (vscale (inject_Z c0 * spc) rowcos) (vscale (inject_Z r0 * spr) colcos)).
+
+Definition tile_starts (n t : Z) : list Z :=
+  map (fun k => (k * t)%Z) (zrange_from 0 (Z.to_nat ((n + t - 1) / t)%Z)).
+
+Definition tile_nonempty (M : plane) (th tw : Z) (rc0 : Z * Z) : bool :=
+  plane_nonempty (map (cut (snd rc0) tw) (cut (fst rc0) th M)).
+
+(* per-frame (RowPosition, ColumnPosition, x, y, z) of the stored tiles, row-major;
+   empty tiles are left out on request unless every tile is empty *)
+Definition tile_frames (org rowcos colcos : v3) (spr spc : Q) (MR MC th tw : Z) (M : plane)
+           (omit : bool) : list (Z * Z * v3) :=
+  let all := flat_map (fun r0 => map (fun c0 => (r0, c0)) (tile_starts MC tw)) (tile_starts MR th) in
+  let kept := if omit then match filter (tile_nonempty M th tw) all with
+                           | [] => all
+                           | ne => ne
+                           end
+              else all in
+  map (fun rc0 => ((fst rc0 + 1)%Z, (snd rc0 + 1)%Z,
+                   tile_pos org rowcos colcos spr spc (fst rc0) (snd rc0))) kept.
+
+(* [recorded origin; get_volume_geometry(); get_volume(args); per-frame tile positions]
+   of the segmentation; a refusal of the constructor is the whole result *)
+Definition run_tiled_place (with_frames : bool) (src_org usr_org : v3) (npos rp cp : Z)
+           (o_given : bool) (src_rc src_cc u_rc u_cc : v3)
+           (m_given : bool) (src_spr src_spc u_spr u_spc : Q) (sbs : option Q)
+           (srcR srcC MR MC src_th src_tw th tw : Z) (M : plane) (omit : bool)
+           ss se rs re cs ce ai : val :=
+  match placed_origin src_org usr_org npos rp cp o_given src_rc src_cc u_rc u_cc
+                      m_given src_spr src_spc u_spr u_spc srcR srcC MR MC src_th src_tw th tw with
+  | Err k => VErr k
+  | Ok org =>
+      let rc := if o_given then u_rc else src_rc in
+      let cc := if o_given then u_cc else src_cc in
+      let spr := if m_given then u_spr else src_spr in
+      let spc := if m_given then u_spc else src_spc in
+      let G := tiled_geometry org rc cc spr spc sbs in
+      VL [vv3 org;
+          VL [vshape (1%Z, MR, MC); vaff G];
+          vvolume (get_volume_tiled G MR MC M ss se rs re cs ce ai);
+          if with_frames
+          then VL (map (fun f => match f with (r, c, p) =>
+                                   VL [VZ r; VZ c; VQ (vx p); VQ (vy p); VQ (vz p)] end)
+                       (tile_frames usr_org rc cc spr spc MR MC th tw M omit))
+          else VNone]
+  end.
+
+(* a volume whose affine was handed over in a caller-owned buffer: the model has
+   value semantics, i.e. whatever the caller does to the buffer after the volume
+   was constructed is NOT an input of the model; the last item states that the
+   caller's buffers are left as they were by the encoder *)
+Definition run_stored_hist (allow_missing : bool) (st : stored) ss se rs re cs ce ai : val :=
+  match run_stored allow_missing st ss se rs re cs ce ai with
+  | VL l => VL (l ++ [VB true])
+  | v => v
+  end.
